@@ -27,7 +27,7 @@ def harnesses(tier, seed):
     if tier == "quick":
         for ty, term in (("MF", "find_with_index"), ("FMF", "find"), ("FLF", "find")):
             for c in (1, 2):
-                hs.append(h(term, ty, "slice", 4, 2, c))
+                hs.append(h(term, ty, "slice", 3 if (ty == "FLF" and c == 2) else 4, 2, c))
         hs.append(h("find", "MF", "sched", 4, 2, 1))     # iterator-backed source of unknown length, full schedule model
         hs.append(h("find", "FMF", "schedx", 4, 2, 2))
         hs.append(h("first", "F", "slice", 4, 2, 1))
